@@ -1361,3 +1361,41 @@ def user_volume_of_a_moved_domain(S):
     v = S.method(dom, "volume", S.new(POINTS, Tt, S.new(R1, "t"))).val
     S.ensure("one-value-per-parameter-row", v.rank >= 2 and v.shape[0].size_term() == zint(K) and all(d.is_one for d in v.shape[1:]))
     S.forall("user-volume-overrides", v, lambda q: v.at(q) == uv.value_terms([zreal(Tt.val.at([q[0], ()]))])[0])
+
+
+def _bool_boundary_density(S, op, mode):
+    """boundary of a Boolean operation sampled with a DENSITY (one parameter row, the library's own restriction):
+    every returned row lies on the boundary of the composite set (regularised-CSG formula over the operand predicates;
+    pre: operand boundary samples lie on the operand's boundary, operand boundary points belong to the closed operand)"""
+    A, B, dom = mk_bool(S, op)
+    bd = S.getattr(dom, "boundary")
+    dens = S.real("density")
+    S.assume(dens.t > 0)
+    T1 = S.tensor("t1", [1, 1])
+    one = S.new(POINTS, T1, S.new(R1, "t"))
+    pts = S.method(bd, "sample_random_uniform" if mode == "random" else "sample_grid", None, dens, one)
+    t = tensor_of(pts)
+    ok = t.rank == 2 and t.shape[1].concrete() == 2
+    S.ensure("two-columns", ok)
+    if not ok:
+        return
+    p = [zreal(T1.val.at([(), ()]))]
+
+    def goal(q):
+        x = [zreal(t.at([q[0], (c,)])) for c in range(2)]
+        inA, inB = A.in_pred(x, p), B.in_pred(x, p)
+        onA, onB = A.boundary.in_pred(x, p), B.boundary.in_pred(x, p)
+        closed = z3.And(z3.Implies(onA, inA), z3.Implies(onB, inB))
+        return z3.Implies(closed, bd_oracle(op, inA, inB, onA, onB))
+
+    S.forall("every-row-on-the-boundary-of-the-composite-set", t, goal, extra_hyps=lambda q: S.schema_instances([q[0]]))
+
+
+for _op in ("union", "cut", "intersection"):
+    for _mode in ("random", "grid"):
+        def _fb(S, _op=_op, _mode=_mode):
+            _bool_boundary_density(S, _op, _mode)
+        _fb.__name__ = f"{_op}_boundary_density_sampling_{_mode}"
+        _fb.__doc__ = _bool_boundary_density.__doc__
+        _cls = BOOL[_op][1]
+        scenario("C01", [_cls + (".sample_random_uniform" if _mode == "random" else ".sample_grid"), _cls + ("._sample_random_with_d" if _mode == "random" else "._sample_grid_with_d")], configs=["abstract-operands"])(_fb)
